@@ -159,7 +159,7 @@ static void triangulate_faces(Poly& m, Rng& g, double p_face) {
 static int flip_faces(Poly& m, Rng& g, double p) { int n = 0; for (auto& f : m.F) if (g.coin(p)) { std::reverse(f.v.begin(), f.v.end()); n++; } return n; }
 static bool is_polygonal(const Poly& m) { for (auto& f : m.F) if (f.v.size() > 3) return true; return false; }
 
-static const char* FAMILIES[] = {"cube", "box", "prism", "sphere", "ellipsoid", "lprism", "starprism", "dumbbell"};
+static const char* FAMILIES[] = {"cube", "box", "prism", "sphere", "ellipsoid", "lprism", "starprism", "dumbbell", "fine_tower"};
 static Poly make_family(int fam, Rng& g) {
     Poly m;
     switch (fam) {
@@ -187,6 +187,20 @@ static Poly make_family(int fam, Rng& g) {
                     for (int e = 0; e < 4; e++) (side ? holeR[k][e] : holeL[k][e]) = h[e]; } }
             for (int k = 0; k + 1 < nl; k++) for (int e = 0; e < 4; e++) { int e1 = (e + 1) % 4; quad(holeR[k][e], holeR[k][e1], holeL[k + 1][e1], holeL[k + 1][e]); }
             ptranslate(m, -0.5 * (nl * (1 + gap) - gap), -0.5, -0.5); m.thick = 1; break; }
+        case 8: {   // mixed resolution: a coarse cube (side 2, polygonal sides) whose top is a smooth tower of height 2.6-3.2 tessellated into 2 x 128^2 triangles.  At
+            // l_min of 0.26-0.36 cube sides every triangle of the tower is smaller than the area one sample point stands for: the tower receives no sample at
+            // all.  The reconstruction must then fail cleanly - a cube closed flat across the missing tower is not the input (its bounding box is > 3 l_min short)
+            const int N = 128; const double h = g.uni(2.6, 3.2); auto add = [&](double x, double y, double z) { m.P.push_back({x, y, z}); return (unsigned)m.P.size() - 1; };
+            const unsigned b00 = add(-1, -1, -1), b10 = add(1, -1, -1), b11 = add(1, 1, -1), b01 = add(-1, 1, -1); std::vector<unsigned> top((size_t)(N + 1) * (N + 1));
+            for (int j = 0; j <= N; j++) for (int i = 0; i <= N; i++) { const double x = -1 + 2.0 * i / N, y = -1 + 2.0 * j / N; top[(size_t)j * (N + 1) + i] = add(x, y, 1 + h * (1 - x * x) * (1 - y * y)); }
+            auto T = [&](int i, int j) { return top[(size_t)j * (N + 1) + i]; };
+            { PFace f; f.v = {b00, b01, b11, b10}; m.F.push_back(f); }
+            { PFace f; f.v = {b00, b10}; for (int i = N; i >= 0; i--) f.v.push_back(T(i, 0)); m.F.push_back(f); }
+            { PFace f; f.v = {b10, b11}; for (int j = N; j >= 0; j--) f.v.push_back(T(N, j)); m.F.push_back(f); }
+            { PFace f; f.v = {b11, b01}; for (int i = 0; i <= N; i++) f.v.push_back(T(i, N)); m.F.push_back(f); }
+            { PFace f; f.v = {b01, b00}; for (int j = 0; j <= N; j++) f.v.push_back(T(0, j)); m.F.push_back(f); }
+            for (int j = 0; j < N; j++) for (int i = 0; i < N; i++) { PFace f1; f1.v = {T(i, j), T(i + 1, j), T(i + 1, j + 1)}; m.F.push_back(f1); PFace f2; f2.v = {T(i, j), T(i + 1, j + 1), T(i, j + 1)}; m.F.push_back(f2); }
+            m.thick = 2; break; }
         default: { int k = g.range(4, 7); double rin = g.uni(0.5, 0.8); Poly m2;
             for (int attempt = 0; attempt < 4; attempt++) { Poly2 pg; double jit = attempt < 3 ? 0.08 : 0.0; for (int j = 0; j < 2 * k; j++) { double r = (j % 2 == 0 ? 1.0 : rin) * (1 + jit * g.uni(-1, 1)); pg.push_back({r * std::cos(M_PI * j / k), r * std::sin(M_PI * j / k)}); }
                 m2 = prism_poly(pg, g.uni(0.4, 1.0), 1, false); if (faces_star_shaped(m2)) break; }
@@ -291,7 +305,7 @@ static std::string run_case(const Args& a, long i, const std::string& path) {
     for (int k = 0; k < ncell; k++) {
         Poly m;
         if (bad) m = make_bad(bad_kind, g);
-        else { int fam = a.kv.count("family") ? (int)a.geti("family", 0) : g.range(0, 7); m = make_family(fam, g); }
+        else { int fam = a.kv.count("family") ? (int)a.geti("family", 0) : g.range(0, 7); if (!a.kv.count("family") && mode == TRI_ON && g.coin(0.12)) fam = 8; m = make_family(fam, g); }
         if (!bad) {
             // face style: polygonal as generated / all triangulated / mixed
             int style = mode == OFF_VALID ? 1 : mode == OFF_POLY ? (g.coin(0.5) ? 0 : 2) : g.range(0, 2);
@@ -319,7 +333,7 @@ static std::string run_case(const Args& a, long i, const std::string& path) {
     // ---- resolution ---------------------------------------------------------------------------------------------
     // l_min / size: log-uniform over 0.04..0.5; one input in seven beyond that (0.5..1.6), where the sample cannot represent the
     // body any more and the reconstruction legitimately fails more and more often (observed: 25% at 0.8, 60% at 1.0, 100% at 1.7)
-    double rho = g.coin(0.15) ? g.uni(0.5, 1.6) : g.logu(0.04, 0.5); if (bad) rho = g.uni(0.12, 0.3); if (a.kv.count("rho")) rho = a.getd("rho", 0.1);
+    double rho = g.coin(0.15) ? g.uni(0.5, 1.6) : g.logu(0.04, 0.5); if (bad) rho = g.uni(0.12, 0.3); for (auto& f : fams) if (f == "fine_tower") rho = g.uni(0.26, 0.36); if (a.kv.count("rho")) rho = a.getd("rho", 0.1);
     double lmin = rho * thick_min;
     // bound on the work: about A / (0.75 l_min^2) sample points are kept
     { double nest = area_sum / (0.75 * lmin * lmin); if (tri_on && nest > max_nodes) { lmin = std::sqrt(area_sum / (0.75 * max_nodes)); rho = lmin / thick_min; } }
